@@ -37,6 +37,11 @@ def in_child(call):
 
 for line in sys.stdin:
     calls = json.loads(line)
-    out = [in_child(c) for c in calls]
+    if isinstance(calls, dict):
+        # cheap mode for light cases: answered in this process without fork (this process only ever sees such single calls;
+        # a difference is confirmed by the caller with the forking mode before it is reported)
+        out = [run_call(c) for c in calls['nofork']]
+    else:
+        out = [in_child(c) for c in calls]
     sys.stdout.write(json.dumps(out) + '\n')
     sys.stdout.flush()
